@@ -57,22 +57,33 @@ Print Assumptions C02_cell_nonvacuous.
 
 (* ============ (2) the last good table keeps serving, the next valid one is applied ============ *)
 
-(* For every builder (in particular the composed NewTable model): as long as the process lives,
-   the update loop is C01's loop over [build_opt build] ... *)
+(* For every builder: the update loop is C01's loop over [build_opt build] unless the builder
+   panics on a candidate ([wrun] / [Crashed] model the missing recover) ... *)
 Theorem C02_watch_is_c01_loop : forall (build : str -> outcome btable) h w w',
   wrun build (Running w) h = Running w' -> w' = Watch.run btable (build_opt build) w h.
 Proof. exact wrun_running. Qed.
 Print Assumptions C02_watch_is_c01_loop.
 
-(* ... it lives as long as no candidate text makes the builder panic ... *)
+(* ... which needs a candidate text on which the builder panics ... *)
 Theorem C02_watch_no_crash : forall (build : str -> outcome btable) h w,
   (forall c, In c (candidates build w h) -> build c <> Panic) ->
   wrun build (Running w) h = Running (Watch.run btable (build_opt build) w h).
 Proof. exact wrun_no_crash. Qed.
 Print Assumptions C02_watch_no_crash.
 
-(* ... and C01's theorems hold for it: an invalid candidate changes nothing visible and does not
-   block the next valid one; *)
+(* ... and the composed NewTable never panics (C02_new_table_total below): for every history of
+   service / manual deliveries the loop never reaches [Crashed] and IS C01's loop.  The only
+   hypothesis: no route ever holds more than 3*10^9 targets (C04's bound). *)
+Theorem C02_watch_never_crashes : forall pweight canon glob_ok order, perm_order order ->
+  (forall text ds, parse pweight text = Ok ds -> Forall route_ok (reached canon glob_ok [] ds)) ->
+  forall h w,
+    wrun (full_build pweight canon glob_ok (ring_faithful order)) (Running w) h
+    = Running (Watch.run btable (build_opt (full_build pweight canon glob_ok (ring_faithful order))) w h).
+Proof. exact watch_never_crashes. Qed.
+Print Assumptions C02_watch_never_crashes.
+
+(* C01's theorems therefore hold for the loop as it runs: an invalid candidate changes nothing visible
+   and does not block the next valid one; *)
 Theorem C02_watch_keeps_last_good : forall (build : str -> outcome btable) w e,
   Proofs.Watch.inv btable (build_opt build) w ->
   build_opt build (Proofs.Watch.cur_text btable w e) = None ->
@@ -127,32 +138,39 @@ Theorem C02_full_build_refines_new_table : forall pweight canon glob_ok order te
 Proof. exact full_build_refines. Qed.
 Print Assumptions C02_full_build_refines_new_table.
 
-(* REFUTED as stated: kernel-checked texts on which the faithful model - and the real code, see
-   known_findings/C02.json - crashes while the table is built (Inf, 5e-324), or builds a table
-   on which every lookup of the route crashes (1e308 twice), and the update loop dies with it.
-   (The fourth witness, a host pattern '[', was repaired by c9fb527: see the _unrepaired theorems.) *)
-Theorem C02_new_table_total_refuted : exists text, fb_wit text = Panic.
-Proof. exact (ex_intro (fun text => fb_wit text = Panic) _ weight_inf_crashes_build). Qed.
-Print Assumptions C02_new_table_total_refuted.
+(* The clause was REFUTED for the code before /repo 290c777 (weighTargets turned unusable weights
+   into slot counts without looking at them).  The witnesses stay, as theorems about that code
+   ([fb_wit_weights_unrepaired] = the same composition over C04's route_ring_unrepaired), each next to
+   the same text being harmless on the model of the code as it is. *)
+Theorem C02_new_table_total_refuted_unrepaired : exists text, fb_wit_weights_unrepaired text = Panic.
+Proof. exact new_table_total_refuted_unrepaired. Qed.
+Print Assumptions C02_new_table_total_refuted_unrepaired.
 
-Theorem C02_weight_inf_crashes_build :
-  fb_wit (bs "route add s h.com/ http://h/ weight Inf") = Panic.
-Proof. exact weight_inf_crashes_build. Qed.
-Print Assumptions C02_weight_inf_crashes_build.
+(* F-C02-1: weight Inf crashed the build; now the table is built and answers *)
+Theorem C02_weight_inf_crashes_build_unrepaired :
+  fb_wit_weights_unrepaired inf_text = Panic /\ ok_lookup (fb_wit inf_text) (bs "h.com").
+Proof. exact weight_inf_crashes_build_unrepaired. Qed.
+Print Assumptions C02_weight_inf_crashes_build_unrepaired.
 
-Theorem C02_weight_denormal_crashes_build :
-  fb_wit (bs "route add s h.com/ http://h/ weight 5e-324") = Panic.
-Proof. exact weight_denormal_crashes_build. Qed.
-Print Assumptions C02_weight_denormal_crashes_build.
+(* F-C02-3: weight 5e-324 crashed the build; now the table is built and answers *)
+Theorem C02_weight_denormal_crashes_build_unrepaired :
+  fb_wit_weights_unrepaired denormal_text = Panic /\ ok_lookup (fb_wit denormal_text) (bs "h.com").
+Proof. exact weight_denormal_crashes_build_unrepaired. Qed.
+Print Assumptions C02_weight_denormal_crashes_build_unrepaired.
 
-Theorem C02_weight_sum_overflow_crashes_lookup :
-  match fb_wit overflow_text with
+(* F-C02-2: 1e308 twice built a table on which every lookup of the route crashed ... *)
+Theorem C02_weight_sum_overflow_crashes_lookup_unrepaired :
+  match fb_wit_weights_unrepaired overflow_text with
   | Ok bt => lookup_full hostglob_wit bt (bs "h.com") false (bs "/") Lookup.MPrefix false 0%N = Panic
              /\ lookup_full hostglob_wit bt (bs "h.com") false (bs "/") Lookup.MPrefix true 0%N = Panic
   | _ => False
   end.
-Proof. exact weight_sum_overflow_crashes_lookup. Qed.
-Print Assumptions C02_weight_sum_overflow_crashes_lookup.
+Proof. exact weight_sum_overflow_crashes_lookup_unrepaired. Qed.
+Print Assumptions C02_weight_sum_overflow_crashes_lookup_unrepaired.
+(* ... now the lookup answers *)
+Theorem C02_weight_sum_overflow_harmless : ok_lookup (fb_wit overflow_text) (bs "h.com").
+Proof. exact weight_sum_overflow_harmless. Qed.
+Print Assumptions C02_weight_sum_overflow_harmless.
 
 (* F-C02-4 (fixed by /repo c9fb527): with the builder that compiled only the path of a new route,
    an invalid host glob was installed and crashed every glob-enabled lookup *)
@@ -190,34 +208,37 @@ Theorem C02_built_host_keys_compile : forall pweight canon glob_ok order text bt
 Proof. exact full_build_keys_ok. Qed.
 Print Assumptions C02_built_host_keys_compile.
 
-Theorem C02_watch_crash_refuted :
-  map (fun p => match p with
-                | Running w => Some (map fst (Watch.w_active w))
-                | Crashed => None end)
-      (wtrace fb_wit (Running (Watch.w_init btable []))
-         [Watch.Svc h_good; Watch.Man (bs "rout add x"); Watch.Man [];
-          Watch.Svc (bs "route add s h.com/ http://h/ weight Inf"); Watch.Svc h_good])
-  = [Some [bs "h.com"]; Some [bs "h.com"]; Some [bs "h.com"]; None; None].
-Proof. exact watch_crash_refuted. Qed.
-Print Assumptions C02_watch_crash_refuted.
+(* the update loop before 290c777 died on the crash text (no recover) although a valid text
+   followed; the same history now installs every valid text *)
+Theorem C02_watch_crash_refuted_unrepaired :
+  show_trace (wtrace fb_wit_weights_unrepaired (Running (Watch.w_init btable [])) crash_history)
+  = [Some [bs "h.com"]; Some [bs "h.com"]; Some [bs "h.com"]; None; None]
+  /\ show_trace (wtrace fb_wit (Running (Watch.w_init btable [])) crash_history)
+     = [Some [bs "h.com"]; Some [bs "h.com"]; Some [bs "h.com"]; Some [bs "g.com"]; Some [bs "h.com"]].
+Proof. exact watch_crash_refuted_unrepaired. Qed.
+Print Assumptions C02_watch_crash_refuted_unrepaired.
 
-(* ON THE DOMAIN.  Finding regions, as predicates on the FixedWeight vector of a route
-   (Model/TableSwap.v): [F_C02_negative_slots] (some slot count int(1e4 * weight) is negative:
-   NaN / Inf / out-of-range weights), [F_C02_empty_ring] (fixed weights present, no slot at all),
-   [too_many_slots] (> 2^45, needs > 3.5e9 targets); [fixed_ok] = outside all three.
-   If every route state the text's commands go through ([reached], defined on C05's command layer
-   alone) is outside the regions, then - for every text, and whatever ParseFloat, url.Parse,
-   glob.Compile and the unstable sort answer - the build returns a table or an error, and on the
-   table EVERY lookup returns, glob matching on or off (since c9fb527 every host key of a built
-   table compiles; [Hstrip] is the one fact about the glob library that is assumed: a pattern that
-   compiles still compiles without its literal ":80" / ":443" suffix - the harness checks it on
-   every host key it generates).
-   Composition of C05 parse_lines_np / apply_def_np / add_route's host check, C04
-   ring_of_counts_spec / rr_pick_ok.
-   What is NOT proved (hence the correspondence run's tripwire): a characterisation of the regions
-   by the input weights on binary64 (e.g. "all weights finite, their float sum finite and either 0
-   or >= 2^-1022"); the regions are decided per case by evaluating the binary64 model. *)
-Theorem C02_new_table_total_on_domain :
+(* NEVER CRASHES, for the code as it is.  For EVERY text - any bytes, any weights of any bit pattern
+   (Inf, subnormal, huge, negative) - and whatever ParseFloat, url.Parse, glob.Compile and the
+   unstable sort answer: the composed NewTable returns a table or an error, never a panic and never an
+   endless loop; and on every table it returns EVERY lookup returns (any host, path, TLS flag,
+   matcher, glob matching on or off, any round-robin cursor).
+   Composition of C05 parse_lines_np / apply_def_np (parser and command layer), C04
+   C04_binary64_never_panics (weighTargets on binary64 incl. the fallbacks of 290c777, the ring fill,
+   non-empty rings) and rr_pick_ok, and C02_built_host_keys_compile (addRoute's host check, c9fb527).
+   Hypotheses that remain, all explicit:
+     - [perm_order order]: sort.Sort returns a permutation of the slot vector;
+     - route sizes: no route state the commands go through holds more than 3*10^9 targets
+       ([route_ok]; C04's bound - 10^4 slots per target must stay below what make accepts);
+     - [Hstrip], for glob-enabled lookups: a host pattern glob.Compile accepts is still accepted
+       without its literal ":80" / ":443" suffix (addRoute compiles the key as written, matchingHosts
+       the normalised key); the harness checks this on every host key it generates.
+   Modelling assumptions are those of the imported models (C05: ASCII text, lines below the
+   scanner's token limit, `route weight` divides on C05's exact weights: w/n is exactly float64's
+   quotient when w and w/n are zero or normal or n = 1 - the no-panic conclusion does not depend on
+   which float64 the division yields, since C04's theorem covers every bit pattern, NaN excepted:
+   a NaN FixedWeight is not expressible in C05's weights; linux/amd64 int(float64)). *)
+Theorem C02_new_table_total :
   forall pweight canon glob_ok order text, perm_order order ->
   (forall ds, parse pweight text = Ok ds -> Forall route_ok (reached canon glob_ok [] ds)) ->
   full_build pweight canon glob_ok (ring_faithful order) text <> Panic
@@ -225,15 +246,15 @@ Theorem C02_new_table_total_on_domain :
      forall hostglob_ok host tls uri m globoff total,
        (forall k tl, glob_ok k = true -> hostglob_ok (Lookup.normalize_host k tl) = true) ->
        lookup_full hostglob_ok bt host tls uri m globoff total <> Panic.
-Proof. exact new_table_total_on_domain. Qed.
-Print Assumptions C02_new_table_total_on_domain.
+Proof. exact new_table_total. Qed.
+Print Assumptions C02_new_table_total.
 
 (* the same for the custom backend's builder (no text, no parser) *)
-Theorem C02_custom_build_total_on_domain : forall canon glob_ok order ds t, perm_order order ->
+Theorem C02_custom_build_total : forall canon glob_ok order ds t, perm_order order ->
   Forall route_ok (reached canon glob_ok t (known_defs ds)) ->
   custom_from canon glob_ok (ring_faithful order) t ds <> Panic.
-Proof. exact custom_build_total_on_domain. Qed.
-Print Assumptions C02_custom_build_total_on_domain.
+Proof. exact custom_build_total. Qed.
+Print Assumptions C02_custom_build_total.
 
 (* the lookup code itself is unchanged: on a table that does contain an invalid host key (none that
    NewTable returns any more) every glob-enabled lookup crashes, whatever is asked *)
@@ -293,8 +314,8 @@ Theorem C02_custom_errors :
 Proof. exact custom_errors. Qed.
 Print Assumptions C02_custom_errors.
 
-Theorem C02_total_on_domain_nonvacuous :
+Theorem C02_total_nonvacuous :
   (forall ds, parse pw_wit domain_text = Ok ds -> Forall route_ok (reached canon_wit glob_wit [] ds))
   /\ fb_wit domain_text <> Panic.
-Proof. exact total_on_domain_nonvacuous. Qed.
-Print Assumptions C02_total_on_domain_nonvacuous.
+Proof. exact total_nonvacuous. Qed.
+Print Assumptions C02_total_nonvacuous.
